@@ -32,6 +32,10 @@ HARNESS = {
     'C05': ('harness.units_h', 'run_C05', 'replay_C05'),
     'C06': ('harness.units_h', 'run_C06', 'replay_C06'),
     'C19': ('harness.units_h', 'run_C19', 'replay_C19'),
+    'C01': ('harness.sim_props', 'run_C01', 'replay_C01'),
+    'C02': ('harness.sim_props', 'run_C02', 'replay_C02'),
+    'C03': ('harness.sim_props', 'run_C03', 'replay_C03'),
+    'C13': ('harness.sim_props', 'run_C13', 'replay_C13'),
 }
 
 TRUSTED_BASE = [
